@@ -111,22 +111,86 @@ class Solver:
             self.p.kill()
         self.log.close()
 
-    def cross_check(self, cvc5="/usr/bin/cvc5", cap_s=600):
-        """Re-runs the logged script through cvc5; returns (agree: bool, detail)."""
+    def cross_check(self, cvc5="/usr/bin/cvc5", cap_s=600, chunk_queries=4000, workers=4):
+        """Re-runs the logged script through cvc5; returns (agree: bool, detail, seconds).
+        Long logs are split at top-level (depth 0) boundaries into chunks of ~chunk_queries queries; every chunk carries all
+        top-level declarations made before it, so each query is re-decided with exactly the assertions it had; the chunks run
+        in parallel cvc5 processes and the verdict vectors are concatenated in order."""
+        import concurrent.futures as cfut
+        import tempfile
         self.log.flush()
         t0 = time.time()
+        header, decls, chunks, cur, depth, nq = [], [], [], [], 0, 0
+        with open(self.logpath) as f:
+            for line in f:
+                l = line.strip()
+                if not l:
+                    continue
+                if depth == 0 and l.startswith(("(set-option", "(set-logic")):
+                    header.append(l)
+                    continue
+                if depth == 0 and l.startswith(("(declare-", "(define-")):
+                    decls.append(l)
+                    cur.append(None)  # marker: declarations are replayed from `decls`
+                    continue
+                if l.startswith("(push"):
+                    depth += 1
+                elif l.startswith("(pop"):
+                    depth -= 1
+                elif l.startswith("(check-sat"):
+                    nq += 1
+                cur.append(l)
+                if depth == 0 and nq >= chunk_queries:
+                    chunks.append((len(decls), cur))
+                    cur, nq = [], 0
+        if cur:
+            chunks.append((len(decls), cur))
+        if depth != 0:
+            return None, "log is not balanced (depth %d at the end)" % depth, time.time() - t0
+        tmpdir = tempfile.mkdtemp(prefix="cvc5chunks-", dir=os.path.dirname(self.logpath))
+        paths = []
+        ndecl_before = 0
+        for k, (ndecl_end, lines) in enumerate(chunks):
+            pth = os.path.join(tmpdir, "chunk%04d.smt2" % k)
+            with open(pth, "w") as f:
+                f.write("\n".join(header) + "\n")
+                f.write("\n".join(decls[:ndecl_before]) + "\n")
+                di = ndecl_before
+                for l in lines:
+                    if l is None:
+                        f.write(decls[di] + "\n")
+                        di += 1
+                    else:
+                        f.write(l + "\n")
+            ndecl_before = ndecl_end
+            paths.append(pth)
+        deadline = t0 + cap_s
+
+        def run1(pth):
+            left = deadline - time.time()
+            if left <= 0:
+                return None, "cvc5 timed out after %ds" % cap_s
+            try:
+                r = subprocess.run([cvc5, "--incremental", "--lang", "smt2", pth], capture_output=True, text=True, timeout=left)
+            except subprocess.TimeoutExpired:
+                return None, "cvc5 timed out after %ds" % cap_s
+            lines = [l.strip() for l in r.stdout.split("\n") if l.strip()]
+            if any(l.startswith("(error") for l in lines) or r.returncode != 0:
+                return None, "cvc5 error: %s %s" % (lines[:3], r.stderr[:300])
+            return [l for l in lines if l in ("sat", "unsat", "unknown")], None
         try:
-            r = subprocess.run([cvc5, "--incremental", "--lang", "smt2", self.logpath], capture_output=True, text=True,
-                               timeout=cap_s)
-        except subprocess.TimeoutExpired:
-            return None, "cvc5 timed out after %ds" % cap_s, time.time() - t0
-        lines = [l.strip() for l in r.stdout.split("\n") if l.strip()]
-        if any(l.startswith("(error") for l in lines) or r.returncode != 0:
-            return None, "cvc5 error: %s %s" % (lines[:3], r.stderr[:300]), time.time() - t0
-        got = [l for l in lines if l in ("sat", "unsat", "unknown")]
+            with cfut.ThreadPoolExecutor(max_workers=workers) as pool:
+                res = list(pool.map(run1, paths))
+        finally:
+            import shutil
+            shutil.rmtree(tmpdir, ignore_errors=True)
+        got = []
+        for r, err in res:
+            if r is None:
+                return None, err, time.time() - t0
+            got += r
         if got == self.verdicts:
-            return True, "%d verdicts agree" % len(got), time.time() - t0
-        # locate first difference
+            return True, "%d verdicts agree (%d chunk(s))" % (len(got), len(paths)), time.time() - t0
         for i, (a, b) in enumerate(zip(self.verdicts, got)):
             if a != b:
                 return False, "query %d: z3=%s cvc5=%s" % (i, a, b), time.time() - t0
